@@ -532,6 +532,10 @@ def extract_fn(unit: str, file: str, item: str, mode: str, contracts, canary: bo
                     if in_k is None:
                         raise LostAnchor('%s: loop %d: no `in`' % (fn_label, k))
                     edits.append((toks[in_k].end, toks[in_k].end, ' %s:' % ls.ghost, rw('A2:ghost')))
+                    if ls.iterexpr:
+                        # rule R9: the iterated expression is replaced by a shim call (e.g. `v` -> `vp_vec_into_iter(v)`)
+                        edits.append((toks[in_k + 1].start, toks[lp.open_tok - 1].end, ls.iterexpr, rw('R9:iter')))
+                        info.rewrites.append('R9:loop%d iter %s' % (k, ls.iterexpr))
                 if inv_segs:
                     edits.append((open_t.start, open_t.start, ('SEGS', [Seg('\n', {'kind': 'glue'})] + inv_segs + [Seg('        ', {'kind': 'glue'})]), rw('A2')))
 
